@@ -1,4 +1,5 @@
 import AnonModel.Model.Names
+import AnonModel.Model.Encode
 /-!
 # M8 — IdealCL: the ideal functionality standing in for `anoncreds-clsignatures`
 
@@ -95,7 +96,8 @@ def predHolds (attrs : List (String × String)) (p : Pred) : Bool :=
   match attrs.lookup p.attr with
   | none => false
   | some enc =>
-    match enc.toInt? with
+    -- the CL crate reads the signed value as an `i32` (`to_dec().parse::<i32>()`): anything else is refused
+    match Encode.parseI32 enc.toList with
     | none => false
     | some v =>
       if p.ty = "GE" then decide (v ≥ p.value)
